@@ -59,6 +59,7 @@ class Unit:
     assumptions: list = dataclasses.field(default_factory=list)
     trusted: list = dataclasses.field(default_factory=list)
     harness_crate: str = ""
+    pre_build: object = None        # callable(ws: Path): unit-specific mechanical generation step after injection
     allow_unsafe: bool = False      # harness module needs #[allow(unsafe_code)] (crate must not forbid it)
     harness_path: str = ""          # module path prefix of the harness fns (for --exact), e.g. "base64::verif::vharness"         # if set: cargo-kani runs in this extra crate dir (copied from /verif) instead of a repo crate
 
@@ -168,8 +169,10 @@ def inject(unit: Unit, ws: Path) -> dict:
         src = "+".join(srcs)
         modname = inj[2] if len(inj) > 2 else "verif"
         unsafe_allow = "unsafe_code, " if unit.allow_unsafe else ""
-        f.write_text(f.read_text() + f"\n\n// ===== appended by /verif ({src}) =====\n#[cfg(kani)]\n#[allow({unsafe_allow}dead_code, unused_imports, unused_variables, unused_mut, unused_macros)]\nmod {modname} {{\nuse super::*;\n{body}\n}}\n")
+        f.write_text(f.read_text() + f"\n\n// ===== appended by /verif ({src}) =====\n#[cfg(kani)]\n#[allow({unsafe_allow}dead_code, unused_imports, unused_variables, unused_mut, unused_macros, non_snake_case)]\npub(crate) mod {modname} {{\nuse super::*;\n{body}\n}}\n")
         record["appended_modules"].append({"file": rel, "source": src, "module": modname})
+    if unit.pre_build:
+        unit.pre_build(ws)
     # 3. crate-level attributes (cfg_attr(kani) only)
     for rel, attrs in unit.crate_attrs.items():
         f = ws / rel
